@@ -70,10 +70,23 @@ let parse_bounce (s : string) : n list option =
 type case = { db : (n list * domstate) list option; dom : n list; lay : (n list * entry) list;
               vbfile : n list option; local : n list }
 
+(* c3: lists of <len:1><bytes> *)
+let parse_list (s : string) : n list list =
+  let rec go l acc = match l with
+    | [] -> List.rev acc
+    | k :: rest -> let x = take k rest in if List.mem 0 x then raise Bad; go (drop k rest) (List.map n_of_int x :: acc) in
+  go (ints s) []
+
 let parse_case fs =
   match fs with
-  | [("c1" | "c2") as op; cdb; dom; lay; bnc; loc; tail] ->
+  | ["c3"; cdb; _; lay; bnc; _; "-"] ->
+      let lay = parse_layout lay in
+      let vbfile = parse_bounce bnc in
+      let db = parse_cdb cdb in
+      { db; dom = []; lay; vbfile; local = [] }
+  | [("c1" | "c2" | "c4") as op; cdb; dom; lay; bnc; loc; tail] ->
       if op = "c2" && tail <> "-" then raise Bad;
+      let tail = if op = "c4" then "-" else tail in
       let nonul s = not (List.mem 0 (ints s)) in
       if not (nonul dom && nonul loc && nonul tail) then raise Bad;
       let lay = parse_layout lay in
@@ -111,9 +124,56 @@ let model_rcpt c =
   string_of_int rc ^ " " ^ reply ^ " " ^ conf_word o (rc = 0 && u > 0 && u <> 5)
   ^ String.concat "" (List.map (function PDir n -> " d:" ^ hex_of_bytes n | PFile n -> " f:" ^ hex_of_bytes n) o.probes)
 
+(* c3: a sequence of calls on one struct userconf; the paths the harness puts into users/cdb *)
+let str s = List.map (fun c -> n_of_int (Char.code c)) (List.init (String.length s) (String.get s))
+let path_of = function DomTree -> str "outer/dom/" | DomMissing -> str "outer/missing/" | DomFile -> str "outer/afile/"
+let pathfs p = if p = str "outer/dom/" then DomTree else if p = str "outer/afile/" then DomFile else DomMissing
+let model_seq c doms locals =
+  if List.length doms <> List.length locals || doms = [] || List.length doms > 64 then "BADCASE" else begin
+    let fs = fs_of_layout c.lay and vb = vpopbounce_of c.vbfile in
+    let (rcs, s) = List.fold_left2 (fun (rcs, s) d l ->
+        let v = (match vget_dir c.db d with Inl rc -> VErr rc | Inr None -> VNone | Inr (Some st) -> VPath (path_of st)) in
+        let ((o, s'), _) = user_exists_ds s v pathfs fs vb l in
+        (string_of_int (int_of_z o.rc) :: rcs, s')) ([], ds_fresh) doms locals in
+    String.concat "," (List.rev rcs) ^ " " ^ string_of_int (int_of_nat (held s)) ^ " 0"
+  end
+
+(* c4: RCPT TO:<local@[iptext]>; tail = localip NUL iptext; the domain field is liphost *)
+let split_nul l = let rec go acc = function [] -> None | 0 :: r -> Some (List.rev acc, r) | x :: r -> go (x :: acc) r in go [] l
+let valid_v4 s =
+  match List.map int_of_string_opt (String.split_on_char '.' s) with
+  | [Some a; Some b; Some c; Some d] ->
+      List.for_all (fun x -> x >= 0 && x <= 255) [a; b; c; d]
+      && List.for_all (fun p -> p <> "" && (p = "0" || p.[0] <> '0') && String.length p <= 3 && String.for_all (fun ch -> ch >= '0' && ch <= '9') p) (String.split_on_char '.' s)
+  | _ -> false
+let known_v6 = ["IPv6:::1"; "IPv6:fe80::A"; "IPv6:2001:DB8::1"; "IPv6:2001:db8::1"; "IPv6:::ffff:10.0.0.1"; "IPv6:FE80::a"]
+let string_of_ints l = String.concat "" (List.map (fun c -> String.make 1 (Char.chr c)) l)
+let parse_literal fs =
+  match split_nul (ints (List.nth fs 6)) with
+  | Some (localip, iptext) when not (List.mem 0 iptext) && List.length localip < 46 ->
+      let t = string_of_ints iptext in
+      if valid_v4 t || List.mem t known_v6 then Some (bytes_of_ints localip, bytes_of_ints iptext) else None
+  | _ -> None
+
+let model_literal c fs =
+  if not (simple_local (List.map int_of_n c.local)) then "OUTSIDE" else
+  match parse_literal fs with
+  | None -> "OUTSIDE"
+  | Some (localip, iptext) ->
+      let (r, o) = addrparse_literal localip c.dom c.db (fs_of_layout c.lay) (vpopbounce_of c.vbfile) c.local iptext in
+      let u = int_of_z o.rc in
+      let (rc, reply) = (match r with RAccept -> (0, "-") | RNoUser t -> (-1, hex_of_bytes t) | RError e -> (int_of_z e, "-")) in
+      string_of_int rc ^ " " ^ reply ^ " " ^ conf_word o (rc = 0 && u > 0 && u <> 5)
+      ^ String.concat "" (List.map (function PDir n -> " d:" ^ hex_of_bytes n | PFile n -> " f:" ^ hex_of_bytes n) o.probes)
+
 let model fs =
   match (try Some (parse_case fs) with Bad | Failure _ -> None) with
   | None -> "BADCASE"
+  | Some c when List.hd fs = "c4" -> model_literal c fs
+  | Some c when List.hd fs = "c3" ->
+      (match (try Some (parse_list (List.nth fs 2), parse_list (List.nth fs 5)) with Bad | Failure _ -> None) with
+       | None -> "BADCASE"
+       | Some (ds, ls) -> model_seq c ds ls)
   | Some c when List.hd fs = "c2" -> model_rcpt c
   | Some c ->
       let o = user_exists c.db (fs_of_layout c.lay) (vpopbounce_of c.vbfile) c.dom c.local in
@@ -144,6 +204,33 @@ let spec_rcpt c obs =
 let spec fs obs =
   match (try Some (parse_case fs) with Bad | Failure _ -> None) with
   | None -> "pre"
+  | Some c when List.hd fs = "c4" ->
+      (* accepted only when the literal is the local address and the mailbox exists in liphost: the observation is
+         checked with the RCPT checker for the domain liphost when the literal matches; otherwise it must be the 550 reply *)
+      if not (simple_local (List.map int_of_n c.local)) then "pre" else
+      (match parse_literal fs, obs with
+       | None, _ -> "pre"
+       | Some (localip, iptext), rc :: reply :: conf :: ps ->
+           let lower = List.map (fun b -> let x = int_of_n b in if x >= 65 && x <= 90 then n_of_int (x + 32) else b) in
+           let ip = lower iptext in
+           let tagged = (List.length ip >= 5 && string_of_ints (List.map int_of_n (take 5 ip)) = "ipv6:") in
+           let rest = if tagged then drop 5 ip else ip in
+           (match int_of_string_opt rc, (try Some (List.map parse_probe ps, bytes_of_hex reply) with Bad | Failure _ -> None) with
+            | Some r, Some (pl, rep) ->
+                if rest = localip then
+                  (if spec_ok_C13_rcpt c.db c.lay c.vbfile c.dom c.local (z_of_int r) rep (n_of_int (conf_code conf)) pl then "ok" else "bad")
+                else if r = -1 && pl = [] && String.length reply >= 20 && String.sub reply 0 20 = "35353020352e312e3120" then "ok" else "bad"
+            | _ -> "bad")
+       | _ -> "bad")
+  | Some _ when List.hd fs = "c3" ->
+      (* no descriptor may be lost: at most two are referenced by the structure, none after userconf_free() *)
+      (match obs with
+       | [_; heldn; after] ->
+           (match int_of_string_opt heldn, int_of_string_opt after with
+            | Some h, Some 0 when h >= 0 && h <= 2 -> "ok"
+            | _ -> "bad")
+       | ["BADCASE"] -> "pre"
+       | _ -> "bad")
   | Some c when List.hd fs = "c2" -> spec_rcpt c obs
   | Some c ->
       match obs with
